@@ -63,6 +63,13 @@ def main(argv=None):
         run = mod.check(repo, tier)
         return run.finish()
     except AnalysisError as e:
+        from . import core
+        run = core.CURRENT_RUN
+        if run is not None and run.prop == prop and run.findings and not replay:
+            # part of the analysis could not be carried out, but rule instances decided before that failed: those verdicts stand
+            run.note(f'ANALYSIS-ERROR in a later part of the check (not decided): {e}')
+            print(f'ANALYSIS-ERROR property={prop} (partial) {e}')
+            return run.finish()
         print(f'ANALYSIS-ERROR property={prop} {e}')
         write_error_evidence(prop, tier, str(e))
         return 2
